@@ -57,3 +57,39 @@ Fixpoint py_finite_list (l : list score) : res (list Q) :=
   | SFin z :: tl => do r <- py_finite_list tl; Ok (inject_Z z :: r)
   | _ :: _ => Err Unspecified
   end.
+
+(* ---------- loops ---------- *)
+(* range(n) *)
+Definition py_range (n : Z) : list Z := map Z.of_nat (seq 0 (Z.to_nat n)).
+
+(* for x in l: body   (the loop-carried variables are the state) *)
+Fixpoint py_for {S A} (body : S -> A -> res S) (l : list A) (s : S) : res S :=
+  match l with [] => Ok s | x :: tl => do s1 <- body s x; py_for body tl s1 end.
+
+(* for x in l: body; if c: break *)
+Fixpoint py_for_break {S A} (body : S -> A -> res (S * bool)) (l : list A) (s : S) : res S :=
+  match l with
+  | [] => Ok s
+  | x :: tl => do r <- body s x; if snd r then Ok (fst r) else py_for_break body tl (fst r)
+  end.
+
+(* while c: body   -- fuel is a modelling device; running out of it is Err OutOfFuel, never a normal value *)
+Fixpoint py_while {S} (fuel : nat) (c : S -> res bool) (body : S -> res S) (s : S) : res S :=
+  match fuel with
+  | O => Err OutOfFuel
+  | Datatypes.S f => do b <- c s; if b then (do s1 <- body s; py_while f c body s1) else Ok s
+  end.
+
+(* while True: body   where body may `return r` (inr r) or fall through to the next round (inl state) *)
+Fixpoint py_while_ret {S R} (fuel : nat) (body : S -> res (S + R)) (s : S) : res R :=
+  match fuel with
+  | O => Err OutOfFuel
+  | Datatypes.S f => do x <- body s; match x with inl s1 => py_while_ret f body s1 | inr r => Ok r end
+  end.
+
+(* np.prod of an int list *)
+Definition zprod_l (l : list Z) : Z := fold_right Z.mul 1 l.
+
+(* int(a / b) for ints a, b: float true division, then truncation toward zero.  Exact for |a|, |b| < 2**53 (the model
+   does not represent float rounding above that) *)
+Definition py_int_truediv (a b : Z) : res Z := if b =? 0 then Err ZeroDivisionError else Ok (Z.quot a b).
